@@ -128,13 +128,13 @@ theorem f_eq_fByte (f : Byte) : f &&& 0x0f = 0 →
     f = BitVec.ofNat 8 ((if fz f then 128 else 0) + (if fn f then 64 else 0) + (if fh f then 32 else 0) +
       (if fc f then 16 else 0)) := by
   revert f; apply Tetro.forall_bv8; decide +kernel
-@[simp] theorem fz_and_f0 (v : Byte) : fz (v &&& 0xf0) = v.getLsbD 7 := by
+@[simp] theorem fz_and_f0 (v : Byte) : fz (v &&& 240#8) = v[7] := by
   revert v; apply Tetro.forall_bv8; decide +kernel
-@[simp] theorem fn_and_f0 (v : Byte) : fn (v &&& 0xf0) = v.getLsbD 6 := by
+@[simp] theorem fn_and_f0 (v : Byte) : fn (v &&& 240#8) = v[6] := by
   revert v; apply Tetro.forall_bv8; decide +kernel
-@[simp] theorem fh_and_f0 (v : Byte) : fh (v &&& 0xf0) = v.getLsbD 5 := by
+@[simp] theorem fh_and_f0 (v : Byte) : fh (v &&& 240#8) = v[5] := by
   revert v; apply Tetro.forall_bv8; decide +kernel
-@[simp] theorem fc_and_f0 (v : Byte) : fc (v &&& 0xf0) = v.getLsbD 4 := by
+@[simp] theorem fc_and_f0 (v : Byte) : fc (v &&& 240#8) = v[4] := by
   revert v; apply Tetro.forall_bv8; decide +kernel
 
 /-! ### running lists -/
